@@ -72,6 +72,51 @@ theorem getUncheckedAt_eq (ss : List (View ν α)) (k : Nat) (idx : List Nat) :
 def UncheckedOK (v : View ν α) : Prop :=
   ∀ idx c, inBounds (lens v.shape) idx = true → v.specCell idx = some c → v.getUnchecked idx = .ok c
 
+theorem uncheckedOK_range (s : View ν α) (rs : List IndexRange) (ih : s.WF → UncheckedOK s) :
+    (View.range s rs).WF → UncheckedOK (View.range s rs) := by
+  intro hw idx c hin hc
+  simp only [View.WF] at hw
+  have hgood := (View.correct s hw.1).1
+  simp only [View.shape] at hin
+  have hl := inBounds_length hin
+  simp only [lens_length, rangeShape_length hw.2] at hl
+  simp only [View.getUnchecked, mapIndexesByRange_eq hgood hw.2 hl, hin, if_true]
+  exact ih hw.1 _ c (rangeCoords_inBounds hw.2 hin) hc
+
+
+theorem uncheckedOK_reverse (s : View ν α) (r : List Bool) (ih : s.WF → UncheckedOK s) :
+    (View.reverse s r).WF → UncheckedOK (View.reverse s r) := by
+  intro hw idx c hin hc
+  simp only [View.WF] at hw
+  have hgood := (View.correct s hw.1).1
+  simp only [View.shape] at hin
+  simp only [View.getUnchecked, reverseIndexes_eq (by simpa using hw.2) hin]
+  have la := inBounds_length hin
+  have hb := bounded_of_inBounds hin hgood.lens_le
+  have hspec := tryReverseIndexes_spec (ls := lens s.shape) (r := r) (idx := idx)
+    (by simpa using hw.2) la hb hgood.lens_le
+  cases hm : tryReverseIndexes idx (lens s.shape) r with
+  | none => simp [hm, hin] at hspec
+  | some mapped =>
+    simp only [hm] at hspec
+    obtain ⟨_, _, c1, d⟩ := hspec
+    exact ih hw.1 _ c (by rw [← d hin, c1, hin]) hc
+
+
+theorem uncheckedOK_mrange (s : View ν α) (rows columns : IndexRange) (ih : s.WF → UncheckedOK s)
+    (hw : (View.mrange s rows columns).WF) : UncheckedOK (View.mrange s rows columns) := by
+  simp only [View.WF] at hw
+  have h : UncheckedOK (View.range s [rows, columns]) :=
+    uncheckedOK_range s [rows, columns] ih (by simp only [View.WF]; exact ⟨hw.1, hw.2.2⟩)
+  exact h
+
+theorem uncheckedOK_mreverse (s : View ν α) (rows columns : Bool) (ih : s.WF → UncheckedOK s)
+    (hw : (View.mreverse s rows columns).WF) : UncheckedOK (View.mreverse s rows columns) := by
+  simp only [View.WF] at hw
+  have h : UncheckedOK (View.reverse s [rows, columns]) :=
+    uncheckedOK_reverse s [rows, columns] ih (by simp only [View.WF]; exact ⟨hw.1, by simp [hw.2]⟩)
+  exact h
+
 theorem View.uncheckedOK (v : View ν α) : v.WF → UncheckedOK v := by
   induction v using View.ind with
   | tensor id t =>
@@ -118,20 +163,14 @@ theorem View.uncheckedOK (v : View ν α) : v.WF → UncheckedOK v := by
     simp only [lens_length, hw.2.1] at hl
     simp only [View.getUnchecked, pair_of_length_two hl]
     exact ih hw.1 _ c hin hc
+  | mrange s rows columns ih => exact uncheckedOK_mrange s rows columns ih
+  | mreverse s rows columns ih => exact uncheckedOK_mreverse s rows columns ih
   | tmap s ih =>
     intro hw idx c hin hc
     simp only [View.WF] at hw
     simp only [View.getUnchecked]
     exact ih hw _ c hin hc
-  | range s rs ih =>
-    intro hw idx c hin hc
-    simp only [View.WF] at hw
-    have hgood := (View.correct s hw.1).1
-    simp only [View.shape] at hin
-    have hl := inBounds_length hin
-    simp only [lens_length, rangeShape_length hw.2] at hl
-    simp only [View.getUnchecked, mapIndexesByRange_eq hgood hw.2 hl, hin, if_true]
-    exact ih hw.1 _ c (rangeCoords_inBounds hw.2 hin) hc
+  | range s rs ih => exact uncheckedOK_range s rs ih
   | mask s ms ih =>
     intro hw idx c hin hc
     simp only [View.WF] at hw
